@@ -640,6 +640,7 @@ var specEnum = pbt.Register(&pbt.Spec[Case]{
 		"(destination, inserted values, Concat operand) is run with an empty non-nil slice and with a nil slice; " + rule,
 	Enum: func(shard, shards int, tier string, yield func(Case) bool) { enumerate(tier, yield) },
 	Run:  Run, Exhaustive: true,
+	Replicas: 4, ReplicaEvery: 8,
 })
 
 var specRand = pbt.Register(&pbt.Spec[Case]{
@@ -652,6 +653,7 @@ var specRand = pbt.Register(&pbt.Spec[Case]{
 		"batch, spare capacity and capacity; zero-length zero-capacity arguments are nil slices in half of the cases that have one; " + rule,
 	Gen: drawCase,
 	Run: Run, Quick: 100000, Thorough: 300000,
+	Replicas: 4, ReplicaEvery: 8,
 })
 
 func TestC12Enum(t *testing.T) { pbt.Check(t, specEnum) }
